@@ -305,7 +305,7 @@ fn c07_dual_matrix_part() {
 // ---------------------------------------------------------------------------------------
 // connectors *built* from bigram text.  The builders (BufReader lines, string-keyed hashbrown
 // maps, the greedy template split over hash sets) do not fold under CBMC, so they run natively,
-// at check time, on one concrete 10-template model with ragged rows and BOS/EOS entries
+// at check time, on one concrete 12-template model with ragged rows and BOS/EOS entries
 // (gen.rs BIGRAM_TEXT); the generator also computes the defining feature-pair sums with its own
 // reference.  The solver then decides, for every pair of connection ids at once, that `cost()`
 // of the connector assembled from the natively built parts equals the defining sum.
@@ -345,7 +345,7 @@ fn want_of(r: usize, l: usize) -> i32 {
     w
 }
 
-//@ c07_built_dual_model {"desc":"the dual connector the current DualConnector::from_readers builds from a 10-template bigram model (ragged rows, BOS/EOS entries, templates split between matrix part and raw part) returns the defining feature-pair sum for every pair of ids","bounds":"one concrete model: 3 right + 3 left ids (+ id 0), 10 templates, 20 cost lines (text in gen.rs BIGRAM_TEXT); the builder runs natively at check time and is not executed symbolically; expected sums come from the generator's independent reference","symbolic":"the right and the left connection id","functions":["DualConnector::from_readers (native, output checked)","DualConnector::cost","MatrixConnector::cost","Scorer::accumulate_cost","Scorer::retrieve_cost"],"unwind":130,"timeout":900}
+//@ c07_built_dual_model {"desc":"the dual connector the current DualConnector::from_readers builds from a 12-template bigram model (ragged rows, BOS/EOS entries, templates split between matrix part and raw part) returns the defining feature-pair sum for every pair of ids","bounds":"one concrete model: 3 right + 3 left ids (+ id 0), 10 templates, 20 cost lines (text in gen.rs BIGRAM_TEXT); the builder runs natively at check time and is not executed symbolically; expected sums come from the generator's independent reference","symbolic":"the right and the left connection id","functions":["DualConnector::from_readers (native, output checked)","DualConnector::cost","MatrixConnector::cost","Scorer::accumulate_cost","Scorer::retrieve_cost"],"unwind":130,"timeout":900}
 #[cfg(kani)]
 #[kani::proof]
 fn c07_built_dual_model() {
